@@ -1578,6 +1578,42 @@ def check_C15(env):
                                                                                          batch_size, is_quick, len(bandits)),
                                   dict(case, lp=lp, np=nbh), got, preds, 'simulator')
             yield case
+    # distances within a few ulps (1e-7 .. 1e-12, relative) of the radius / of the k-th distance: the simulator's
+    # re-implementations share one distance table between bandits; any loss of precision there (a narrower dtype, a
+    # rounded cache key) admits or drops exactly these rows and nothing else
+    for eps in (1e-7, 1e-8, 1e-9, 1e-10, 1e-12):
+        for metric in ('cityblock', 'euclidean', 'chebyshev'):
+            d, r, x = [], [], []
+            for c in (0.0, 16.0, -16.0, 3.0):
+                d += [1, 2, 3, 1, 2]
+                r += [2, 9, 1, 3, 10]
+                x += [[c + 1.0, 0.0], [c + 1.0 + eps * (1 + abs(c)), 0.0], [c - 1.0 + eps * (1 + abs(c)), 0.0],
+                      [c, 1.0], [c, -1.0 - eps]]
+            d += [1, 2, 3, 1, 2, 3, 1, 2, 3, 1, 2, 3, 1]
+            r += [0] * 13
+            x += [[0.0, 0.0], [16.0, 0.0], [-16.0, 0.0], [3.0, 0.0], [0.0, 0.0], [16.0, 0.0], [-16.0, 0.0], [3.0, 0.0],
+                  [0.0, 0.0], [16.0, 0.0], [-16.0, 0.0], [3.0, 0.0], [0.0, 0.0]]
+            cand = [(['EpsilonGreedy', {'epsilon': 0.0}], ['Radius', {'radius': 1.0, 'metric': metric}]),
+                    (['EpsilonGreedy', {'epsilon': 0.0}], ['KNearest', {'k': 3, 'metric': metric}]),
+                    (['EpsilonGreedy', {'epsilon': 0.0}], ['KNearest', {'k': 4, 'metric': metric}])]
+            bandits = [b for b in cand if in_focus(env, *b)]
+            if not bandits:
+                continue
+            for batch_size in (0, 4):
+                case = {'bandits': bandits, 'd': d, 'r': r, 'x': x, 'test_size': 0.39, 'is_ordered': True,
+                        'batch_size': batch_size, 'is_quick': False, 'seed': 21, 'n_jobs': 1}
+                sim = _run_sim(case)
+                test = [int(i) for i in sim.test_indices]
+                train = [i for i in range(len(d)) if i not in set(test)]
+                for k, (lp, nbh) in enumerate(bandits):
+                    preds, exps = _api_twin(case, lp, nbh, train, test)
+                    got = list(sim.bandit_to_predictions['b%d' % k])
+                    if not same_result(got, preds, 0):
+                        raise Failure('C15', 'Simulator predictions of %s/%s differ from the public API when stored rows lie '
+                                      'within %g (relative) of the %s (metric %s, batch=%r)'
+                                      % (lp[0], nbh[0], eps, 'radius' if nbh[0] == 'Radius' else 'k-th distance', metric,
+                                         batch_size), dict(case, lp=lp, np=nbh), got, preds, 'simulator')
+                yield case
 
 
 def check_C16(env):
